@@ -3,12 +3,15 @@ package c19
 import (
 	"errors"
 	"fmt"
+	"io"
+	"log"
 	"sort"
 	"strings"
 	"testing"
 	"time"
 
 	"gorm.io/gorm"
+	"gorm.io/gorm/logger"
 	"pgregory.net/rapid"
 
 	"verif/internal/chains"
@@ -33,14 +36,27 @@ type sample struct {
 
 // variation of the handle configuration and of where the operation runs
 type variation struct {
+	// logger: "" = logger.Discard, else the stock logger (writing nowhere) at level silent / warn / info,
+	// "+pq" = with ParameterizedQueries (it then filters the parameters it is asked to explain);
+	// debug = the operation starts with db.Debug(). None of this may change what is exposed or sent.
+	logger                string
+	debug                 bool
 	prepare, skipTx       bool
 	noReturning, noNested bool
 	queryFields, inTx     bool
 }
 
+func stockLogger(kind string) logger.Interface {
+	if kind == "" {
+		return nil // testdb uses logger.Discard
+	}
+	level := map[string]logger.LogLevel{"silent": logger.Silent, "warn": logger.Warn, "info": logger.Info}[strings.TrimSuffix(kind, "+pq")]
+	return logger.New(log.New(io.Discard, "", 0), logger.Config{LogLevel: level, ParameterizedQueries: strings.HasSuffix(kind, "+pq")})
+}
+
 func open(c *chains.Chain, dryRun bool, v variation) *testdb.DB {
 	d := testdb.Open(testdb.Options{
-		Config: gorm.Config{NowFunc: fixedNow, DryRun: dryRun, PrepareStmt: v.prepare, SkipDefaultTransaction: v.skipTx,
+		Config: gorm.Config{NowFunc: fixedNow, Logger: stockLogger(v.logger), DryRun: dryRun, PrepareStmt: v.prepare, SkipDefaultTransaction: v.skipTx,
 			CreateBatchSize: c.ConfigBatchSize(), QueryFields: v.queryFields, DisableNestedTransaction: v.noNested},
 		// Create from maps: see C01, scanning RETURNING rows into []map fails after the statement was sent
 		NoReturning: c.CreatesFromMap() || (v.noReturning && !c.Returning),
@@ -86,6 +102,12 @@ func check(rt *rapid.T, c *chains.Chain, p *chains.Cond, mode string, v variatio
 	desc := mode
 	if v.inTx {
 		desc += "+intx"
+	}
+	if v.logger != "" {
+		desc += "+log:" + v.logger
+	}
+	if v.debug {
+		desc += "+debug"
 	}
 	if prepare {
 		desc += "+prepare"
@@ -139,6 +161,9 @@ func check(rt *rapid.T, c *chains.Chain, p *chains.Cond, mode string, v variatio
 	}
 	plan := c.WithPrefix(p).Plan(chains.Mode{LiteralLimit: true, Now: fixedNow()})
 	handle := func(db *gorm.DB) *gorm.DB {
+		if v.debug {
+			db = db.Debug()
+		}
 		if p == nil {
 			return db
 		}
@@ -192,7 +217,10 @@ func check(rt *rapid.T, c *chains.Chain, p *chains.Cond, mode string, v variatio
 	if skipTx {
 		classes = append(classes, "skip-default-transaction")
 	}
-	for name, on := range map[string]bool{"config:no-returning": v.noReturning, "config:query-fields": v.queryFields, "config:no-nested-tx": v.noNested, "in-transaction": v.inTx} {
+	if v.logger != "" {
+		classes = append(classes, "logger:"+v.logger)
+	}
+	for name, on := range map[string]bool{"debug()": v.debug, "config:no-returning": v.noReturning, "config:query-fields": v.queryFields, "config:no-nested-tx": v.noNested, "in-transaction": v.inTx} {
 		if on {
 			classes = append(classes, name)
 		}
@@ -329,7 +357,9 @@ func TestC19(t *testing.T) {
 			noReturning: rapid.IntRange(0, 3).Draw(rt, "noreturning") == 0,
 			queryFields: rapid.IntRange(0, 4).Draw(rt, "queryfields") == 0,
 			noNested:    rapid.Bool().Draw(rt, "nonested"),
-			inTx:        rapid.IntRange(0, 3).Draw(rt, "intx") == 0}
+			inTx:        rapid.IntRange(0, 3).Draw(rt, "intx") == 0,
+			logger:      rapid.SampledFrom([]string{"", "", "silent", "warn", "info", "silent+pq", "warn+pq", "info+pq", "info+pq"}).Draw(rt, "logger"),
+			debug:       rapid.IntRange(0, 3).Draw(rt, "debug") == 0}
 		check(rt, c, p, mode, v)
 	})
 }
